@@ -83,7 +83,7 @@ def _small_worker(args):
     for name, g, strict in grams:
         ins = gen.inputs_for(rng, g, 3, 8, 10)
         rng.shuffle(ins)
-        for w in ins[:6]:
+        for w in ins[:8]:
             base = dict(one=rng.randrange(2), cost=rng.randrange(2), rec=rng.randrange(2), match=rng.choice([1, 2, 3]))
             cfgs = [dict(base, la=la) for la in LEVELS]
             if len(w) <= 6:
@@ -209,7 +209,7 @@ def _long_worker(args):
 
 def check(tier):
     ck = core.Check("C09", tier)
-    jobs_small = [(ck.seed, i, 14 if tier == "quick" else 40, "asan" if i % 4 != 3 else "asan-small") for i in range(12 if tier == "quick" else 160)]
+    jobs_small = [(ck.seed, i, 40 if tier == "quick" else 50, "asan" if i % 4 != 3 else "asan-small") for i in range(16 if tier == "quick" else 160)]
     jobs_long = []
     sizes = [2000, 5000, 12000] if tier == "quick" else [2000, 5000, 12000, 30000, 50000, 50000]
     i = 0
